@@ -4,3 +4,4 @@ pub mod c10;
 pub mod c14;
 pub mod c19;
 pub mod c15;
+pub mod c16;
